@@ -7,6 +7,7 @@ import Bmc.Driver.DecSdr
 import Bmc.Driver.DecSetup
 import Bmc.Driver.Rt
 import Bmc.Driver.Send
+import Bmc.Driver.SlSend
 open Bmc.Driver
 
 def decTables : List (String × DecFn) := decTableBasic ++ decTableCore ++ decTableSess ++ decTableDcmi ++ decTableSdr ++ decTableSetup
@@ -28,6 +29,7 @@ def step (line : String) : String :=
   | id :: _cls :: "dec" :: args => s!"{id} {evalDec args}"
   | id :: _cls :: "rt" :: args => s!"{id} {evalRt args}"
   | id :: _cls :: "send" :: args => s!"{id} {evalSend args}"
+  | id :: _cls :: "slsend" :: args => s!"{id} {evalSlSend args}"
   | id :: _ => s!"{id} bad-op"
   | [] => ""
 
